@@ -30,6 +30,7 @@ S0 == [now |-> 0, n |-> 0, want |-> FALSE, cl |-> 0,
        ftx |-> <<>>,             \* per attempt: a frame has been offered on it
        late |-> <<>>,            \* frames fed on a connection that ended before they were delivered
        blocked |-> 0,            \* blocking subscribers installed and not released
+       stalled |-> {},           \* connections whose send buffer is full (the console does not read)
        bp |-> FALSE,             \* an unencodable message may sit in the queue
        healFrom |-> 0, strict |-> FALSE, viol |-> <<>>]
 
@@ -83,7 +84,9 @@ RetClose(s)  == [s EXCEPT !.cl = IF @ > 0 THEN @ - 1 ELSE 0,
 CallSend(s, ev) ==
   LET ent == [id |-> ev.id, desc |-> ev.desc, retries |-> ev.retries, expiry |-> s.now + ev.life,
               st |-> "calling", lo |-> 99, hi |-> 0, oy |-> FALSE, on |-> FALSE,
-              att |-> 0, failed |-> FALSE, tx |-> 0, enc |-> ev.enc, stale |-> FALSE]
+              att |-> 0, failed |-> FALSE, tx |-> 0, enc |-> ev.enc, stale |-> FALSE,
+              sc |-> 0,          \* the stalled connection whose send buffer took the frame, if any
+              mf |-> FALSE]      \* that connection ended while stalled: the frame may not have left
   IN [s EXCEPT !.acc = Append(@, ent), !.bp = @ \/ ev.enc # "ok"]
 
 \* C16: not open => NotOpenError; ten unexpired messages held => QueueOverflowError, nothing
@@ -132,11 +135,11 @@ EndConn(s, c, how) ==       \* the connection is gone: undelivered frames may st
 TxFrame(s, ev) ==
   LET c     == ev.c + 1
       cand  == {i \in Idx(s) : s.acc[i].st # "rej" /\ \E a \in 1..Len(ev.alts) : Same(s.acc[i].desc, ev.alts[a])}
-      elig  == {i \in cand : s.acc[i].att = 0 \/ s.acc[i].failed}
+      elig  == {i \in cand : s.acc[i].att = 0 \/ s.acc[i].failed \/ s.acc[i].mf}
       \* among submissions that read the same, the frame is attributed to one that may still be sent
       \* (a pending re-send first, then the oldest unexpired one), else to the oldest
       live  == {i \in elig : s.now < s.acc[i].expiry}
-      retry == {i \in live : s.acc[i].failed /\ s.acc[i].att < 1 + s.acc[i].retries}
+      retry == {i \in live : (s.acc[i].failed \/ s.acc[i].mf) /\ s.acc[i].att < 1 + s.acc[i].retries}
       fresh == {i \in live : s.acc[i].att = 0}
       i     == IF retry # {} THEN Min(retry) ELSE IF fresh # {} THEN Min(fresh)
                ELSE IF live # {} THEN Min(live) ELSE IF elig # {} THEN Min(elig) ELSE 0
@@ -154,9 +157,10 @@ TxFrame(s, ev) ==
            s4 == IF s.now >= e.expiry THEN V(s3, "NotAfterExpiry") ELSE s3
            s5 == IF e.att = 0 /\ \E j \in 1..(i - 1) : Alive(s, s.acc[j]) /\ s.acc[j].att = 0
                  THEN V(s4, "FirstTxInOrder") ELSE s4
-           s6 == IF ~s.ftx[c] /\ pendRetry # {} /\ i \notin pendRetry
+           s6 == IF ~s.ftx[c] /\ pendRetry # {} /\ i \notin pendRetry /\ ~e.mf
                  THEN V(s5, "FailedFirstOnNext") ELSE s5
-       IN [s6 EXCEPT !.acc[i].att = @ + 1, !.acc[i].failed = ev.failed,
+       IN [s6 EXCEPT !.acc[i].att = @ + 1, !.acc[i].failed = ev.failed, !.acc[i].mf = FALSE,
+                     !.acc[i].sc = IF c \in s.stalled /\ ~ev.failed THEN c ELSE 0,
                      !.acc[i].tx = @ + (IF ev.failed THEN 0 ELSE 1), !.ftx[c] = TRUE]
 
 -----------------------------------------------------------------------------
@@ -261,6 +265,19 @@ Step1(s0, ev) ==
        [] k = "residual"  -> Residual(s, ev)
        [] k = "block"     -> [s EXCEPT !.blocked = @ + 1]
        [] k = "release"   -> [s EXCEPT !.blocked = IF @ > 0 THEN @ - 1 ELSE 0]
+       \* the console stopped reading (full send buffer): writes are still taken by the transport but
+       \* their completion is withheld, so callers, and whoever waits for them, are blocked by the
+       \* environment: promptness is not owed until the stall ends, and how many messages count as
+       \* held is not fixed by the statements (bp).  Expiry, order, bounds stay in force.
+       \* A connection that ends while stalled takes its send buffer with it: the frames handed over
+       \* since the stall began may never have left, the client is told so (their completion fails) and
+       \* MAY treat them as failed writes (mf: a re-send is allowed, not owed).
+       [] k = "stall"     -> [s EXCEPT !.blocked = @ + 1, !.bp = TRUE, !.stalled = @ \cup {ev.c + 1}]
+       [] k = "unstall"   -> [s EXCEPT !.blocked = IF @ > 0 THEN @ - 1 ELSE 0, !.stalled = @ \ {ev.c + 1},
+                                       !.acc = [i \in Idx(s) |->
+                                                  IF s.acc[i].sc = ev.c + 1
+                                                  THEN [s.acc[i] EXCEPT !.sc = 0, !.mf = @ \/ ev.ended]
+                                                  ELSE s.acc[i]]]
        [] OTHER           -> s
 
 Step(s0, ev) == Track(Step1(s0, ev))
